@@ -22,6 +22,7 @@ type c07req struct {
 	// per fragment behaviour
 	delCount map[int]int64
 	msetRep  map[int][]byte
+	override map[int][]byte // slot -> reply bytes replacing the normal fragment reply
 }
 
 func permutations(n int) [][]int {
@@ -154,6 +155,9 @@ func (r *c07req) install(script *Script, gated bool) []*Gate {
 			gates = append(gates, p.Gate)
 		}
 		p.Act = func(b *BReq) Action {
+			if ov, ok := r.override[s]; ok {
+				return Action{Reply: ov}
+			}
 			switch r.kind {
 			case "mget":
 				el := make([][]byte, 0, len(b.Args)-1)
